@@ -849,6 +849,16 @@ func (s *suGen) subPath() string {
 		}
 	case 2:
 		q = append(q, "*")
+		if r.Intn(3) == 0 {
+			// two (or more) trailing globs: a leaf one level above the end of the query still matches
+			// (a trailing glob matches at or below the node it reaches); also cut to a shallower leaf
+			// (seeded change c05_seed9 skipped leaf children whenever the query continued after a glob)
+			if len(q) > 2 && r.Intn(2) == 0 {
+				q = q[:len(q)-2]
+				q = append(q, "*")
+			}
+			q = append(q, "*")
+		}
 	case 3:
 		q = nil
 	case 4:
